@@ -235,7 +235,7 @@ func signatureCase(r *ev.Run, rng *rand.Rand, sample bool) {
 					err = fmt.Errorf("panic: %v", p)
 				}
 			}()
-			ok, err = channel.Verify(ps[v].Addr[gen.B], b, sig)
+			ok, err = channel.Verify(ps[v].Any(), b, sig)
 		}()
 		want := same && v == signer
 		r.Case(fmt.Sprintf("sig|%s|same=%v|signer=verifier:%v|%s", mut, same, v == signer, canon.Shape(a)), true)
